@@ -1210,6 +1210,31 @@ func genMetrics(r *vhlib.Rng) (*scenario, *spec) {
 	return g.sc, g.s
 }
 
+// matcher stream: one event in every index of a pool of confusable names (org 0), then one query per pattern:
+// the real expansion must select exactly the glob matches (two-sided oracle, and model = implementation)
+var matcherNames = []string{"a", "ab", "a-b", "ab1", "a.b1", "aXb1", "al", "+ab", "abb", "aab1", "a+b", "a.b", "b1", "a?b", "a..b1"}
+
+func matcherPatterns() []string {
+	pats := append(append([]string{}, wildMain...), wildMeta...)
+	return append(pats, "a", "a.b1", "+", "a?", "a??*", "a*?", ".*", "*.*", "a+", "a+?b*", "?a*", "a.b1,a+b*", "*?b")
+}
+
+func genMatcher(r *vhlib.Rng) (*scenario, *spec) {
+	g := &gen{r: r, s: newSpec(), sc: &scenario{Stream: "matcher"}, complete: true}
+	for _, n := range matcherNames {
+		g.ingest(0, n, 1)
+	}
+	if r.Chance(50) {
+		g.rotate()
+	}
+	for _, p := range matcherPatterns() {
+		g.query(vhlib.Pick(r, []string{"q_search", "q_stats", "q_spl", "q_search"}), 0, p)
+	}
+	g.query("q_cols", 0, "a.b*")
+	g.query("q_cols", 0, "a+b*")
+	return g.sc, g.s
+}
+
 // ---------- oracle ----------
 type failCase struct {
 	Stream string `json:"stream"`
@@ -1249,7 +1274,7 @@ var perClass = map[string]int{}
 func initCols() {
 	seen := map[string]bool{}
 	for _, o := range orgs {
-		names := append(append([]string{}, allIdx...), aliasPool[o]...)
+		names := append(append(append([]string{}, allIdx...), aliasPool[o]...), matcherNames...)
 		for _, n := range names {
 			c := colName(o, n)
 			if prev, ok := colRev[c]; ok && (prev[0] != strconv.FormatInt(o, 10) || prev[1] != n) {
@@ -1363,7 +1388,15 @@ func evalScenario(sum *vhlib.Summary, mu *sync.Mutex, si int, sc *scenario, obs 
 						continue
 					}
 					cl := "named_index_data_missing"
+					metaTerm := false
+					for _, term := range strings.Split(stripColon(op.Expr), ",") {
+						if strings.Contains(term, "*") && hasMeta(term) && glob(term, et) {
+							metaTerm = true
+						}
+					}
 					switch {
+					case metaTerm:
+						cl = "index_pattern_regex_metachar"
 					case c.viaCurOnly[et] && c.restarted && op.Org == 0:
 						cl = "alias_lost_after_restart"
 					case c.viaCurOnly[et] && c.cutAlias[et]:
@@ -1442,10 +1475,10 @@ func evalScenario(sum *vhlib.Summary, mu *sync.Mutex, si int, sc *scenario, obs 
 						}
 					}
 					switch {
-					case meta:
-						cl = "index_pattern_regex_metachar"
 					case g.evOrg[id] != op.Org && inD[g.evTab[id]]:
 						cl = "delete_removed_other_org_same_name"
+					case meta:
+						cl = "index_pattern_regex_metachar"
 					}
 					fail(cl, fmt.Sprintf("delete-index org=%d expr=%q removed event %d of org %d index %q", op.Org, op.Expr, id, g.evOrg[id], g.evTab[id]), i)
 				}
@@ -1594,6 +1627,7 @@ func main() {
 	mk(wrap(genMetrics), 2*nKnown)
 	mk(wrap(genAliasLife), 4*nKnown)
 	mk(wrap(genAliasRestartOrg0), 2)
+	mk(wrap(genMatcher), 2)
 
 	// run
 	par := 6
@@ -1657,10 +1691,11 @@ func main() {
 	}
 	flush()
 
-	// the matcher against Go regexp and the glob specification against the harness' glob
-	pats := append(append([]string{}, wildMain...), wildMeta...)
-	pats = append(pats, "a", "a.b1", "+", "a?", "a??*", "a*?", ".*", "*.*", "a+", "a+?b*", "?a*")
-	strs := append(append([]string{}, allIdx...), "al", "", "+ab", "abb", "aab1", "a+b", "a.b", "b1", "a?b", "a..b1")
+	// documentation check: the PRE-FIX matcher model (rx_matcher) against Go regexp on the pre-fix translation,
+	// and the glob specification against the harness' glob.  The matcher of the code under test is observed
+	// through the real expansion in the "matcher" stream above.
+	pats := matcherPatterns()
+	strs := append([]string{""}, matcherNames...)
 	var rxItems, glItems []string
 	for _, p := range pats {
 		for _, s := range strs {
